@@ -24,7 +24,46 @@ from fractions import Fraction as F
 from harness import core
 from harness.core import to_dec
 
-T_GRID = [500.0, 1000.0, 2000.0]
+T_GRID = [500.0, 1000.0, 1500.0]            # an arithmetic progression: also a range / arange
+GRID_FORMS = ['list', 'farray', 'ilist', 'iarray', 'arange', 'range']
+INT_FORMS = ('ilist', 'iarray', 'arange', 'range')
+
+
+def _typed_grid(vals, form):
+    """The same grid values as the container / element type a user may pass: list of floats,
+    float ndarray, list of ints, int ndarray, numpy.arange, range (integer forms need
+    integer values; arange / range need an arithmetic progression, else an int ndarray)."""
+    import numpy as np
+    if form == 'list':
+        return [float(v) for v in vals]
+    if form == 'farray':
+        return np.array([float(v) for v in vals])
+    iv = [int(v) for v in vals]
+    if any(float(i) != float(v) for i, v in zip(iv, vals)):
+        raise core.MachineryError('integer grid form for non-integer values')
+    if form == 'ilist':
+        return iv
+    step = (iv[1] - iv[0]) if len(iv) > 1 else 1
+    ap = step != 0 and all(b - a == step for a, b in zip(iv, iv[1:]))
+    if form in ('arange', 'range') and ap:
+        stop = iv[-1] + (1 if step > 0 else -1)
+        return np.arange(iv[0], stop, step) if form == 'arange' else range(iv[0], stop, step)
+    return np.array(iv)
+
+
+def _int_typed(x_values):
+    """coverage only: the grid is integer-typed (int list / ndarray / arange / range)"""
+    import numpy as np
+    try:
+        return np.asarray(x_values).dtype.kind in 'iu'
+    except Exception:
+        return False
+
+
+def _table_dtype(tab):
+    import numpy as np
+    dt = getattr(tab, 'dtype', None)
+    return {'tabdtype': str(dt), 'tabfloat': bool(dt is not None and np.issubdtype(dt, np.floating))}
 EXACT_NORMS = [1.0, 2.0, -1.0, 0.5, -4.0]
 UNITS = [None, 'kJ/mol', 'eV', 'kcal/mol', 'J/mol']
 SPAN_UNITS = ['eV', 'kJ/mol', 'kcal/mol', 'J/mol']
@@ -93,6 +132,8 @@ def record_scan1(pd, norms, x_name, x_values, G_units, kw, k=0):
     for x in x_values:
         Ts.append(_temperature(kw, [(x_name, x)]))
     tab, st = pd.get_GoRT_1D(x_name=x_name, x_values=x_values, G_units=G_units, **dict(kw))
+    dt = _table_dtype(tab)
+    dt['g1int'] = _int_typed(x_values)
     tab = np.asarray(tab, dtype=float)
     ev = {'ev': 'scan1', 'n': n, 'np': npts, 'k': int(k), 'units': G_units is not None,
           'R': to_dec(c.R('%s/K' % G_units)) if G_units is not None else [1, 0],
@@ -101,6 +142,7 @@ def record_scan1(pd, norms, x_name, x_values, G_units, kw, k=0):
           'tabshape': [int(v) for v in tab.shape],
           'finite': _finite_all(tab) and _finite_all(own)}
     ev.update(_stable_fields(st))
+    ev.update(dt)
     return ev, np.asarray(st)
 
 
@@ -124,6 +166,8 @@ def record_scan2(pd, norms, x1_name, x1_values, x2_name, x2_values, G_units, kw)
         Ts.append([_temperature(kw, [(x2_name, x2), (x1_name, x1)]) for x2 in x2_values])
     tab, st = pd.get_GoRT_2D(x1_name=x1_name, x1_values=x1_values, x2_name=x2_name,
                              x2_values=x2_values, G_units=G_units, **dict(kw))
+    dt = _table_dtype(tab)
+    dt['g1int'], dt['g2int'] = _int_typed(x1_values), _int_typed(x2_values)
     tab = np.asarray(tab, dtype=float)
     ev = {'ev': 'scan2', 'n': n, 'np': npts, 'nq': nq, 'units': G_units is not None,
           'R': to_dec(c.R('%s/K' % G_units)) if G_units is not None else [1, 0],
@@ -132,6 +176,7 @@ def record_scan2(pd, norms, x1_name, x1_values, x2_name, x2_values, G_units, kw)
           'tabshape': [int(v) for v in tab.shape],
           'finite': _finite_all(tab) and _finite_all(own)}
     ev.update(_stable_fields(st))
+    ev.update(dt)
     return ev, np.asarray(st)
 
 
@@ -233,7 +278,7 @@ def _interp_coeffs(Ts, vals):
     return a
 
 
-def _table_diagram(rows_by_T, norms, slopes):
+def _table_diagram(rows_by_T, norms, slopes, lnp_unit=1.0):
     """PhaseDiagram whose normalised table is rows_by_T[i][a] + slopes[i] * ln(P):
     reaction i is  Z (+ nu G) = S_i (+ nu G)  with S_i a Nasa species interpolating
     norm_i * rows_by_T[i][.] on T_GRID and G a structureless gas (G/RT = ln P)."""
@@ -246,7 +291,7 @@ def _table_diagram(rows_by_T, norms, slopes):
     rxns = []
     for i, row in enumerate(rows_by_T):
         S = _nasa('S%d' % i, _interp_coeffs(T_GRID[:nT], [v * norms[i] for v in row]), 'S')
-        nu = norms[i] * slopes[i]
+        nu = norms[i] * slopes[i] / lnp_unit      # nu * ln(P_b) = norm * slope * (b - 1)
         if nu > 0:
             rxns.append(Reaction(reactants=[Z], reactants_stoich=[1.0],
                                  products=[S, Gs], products_stoich=[1.0, float(nu)]))
@@ -290,9 +335,7 @@ def _exec_one(case):
     t = case['t']
     npts = len(t[0])
     pd = _table_diagram(t, case['norms'], [0] * len(t))
-    xs = T_GRID[:npts]
-    if case.get('xs_array'):
-        xs = np.array(xs)
+    xs = _typed_grid(T_GRID[:npts], case.get('xs_form', 'farray' if case.get('xs_array') else 'list'))
     events, mism = [], []
     ev, st = record_scan1(pd, case['norms'], 'T', xs, case['units'], {'P': 1.0})
     events.append(ev)
@@ -300,7 +343,8 @@ def _exec_one(case):
     if m:
         mism.append(('ReplayStable', dict(m, op='scan1')))
     # the same table with a singleton second axis (a pressure the table does not depend on)
-    ev2, st2 = record_scan2(pd, case['norms'], 'T', xs, 'P', [2.0], case['units'], {})
+    ev2, st2 = record_scan2(pd, case['norms'], 'T', xs, 'P',
+                            _typed_grid([2.0], case.get('p_form', 'list')), case['units'], {})
     ev1, st1 = record_scan1(pd, case['norms'], 'T', xs, case['units'], {'P': 2.0}, k=1)
     events += [ev2, ev1]
     m = _check_stable2(st2, [[a] for a in case['acc']])
@@ -311,11 +355,13 @@ def _exec_one(case):
 
 def _exec_two(case):
     A, c, nb, order = case['a'], case['c'], case['nb'], case['order']
-    pd = _table_diagram(A, case['norms'], c)
-    Ts = T_GRID[:len(A[0])]
-    Ps = [math.exp(b) for b in range(nb)]
+    pform = case.get('p_form', 'list')
+    pint = pform in INT_FORMS                      # integer pressures 1, 2, 4: ln P = (b - 1) ln 2
+    pd = _table_diagram(A, case['norms'], c, math.log(2.0) if pint else 1.0)
+    Ts = _typed_grid(T_GRID[:len(A[0])], case.get('t_form', 'list'))
+    Ps = [2 ** b for b in range(nb)] if pint else [math.exp(b) for b in range(nb)]
     pname = case['pvar']
-    pvals = Ps if pname == 'P' else [{'P': p} for p in Ps]
+    pvals = _typed_grid(Ps, pform) if pname == 'P' else [{'P': p} for p in Ps]
     kw = {} if pname == 'P' else {'P': 7.0}          # overridden for the gas by G_kwargs
     if order == 'TP':
         names, vals = ('T', pname), (Ts, pvals)
@@ -476,9 +522,24 @@ def _random_phase(rnd, kind, sp, i, n1, n2):
     return _nasa(name, a, 'S')
 
 
-def _grid(rnd, var, m):
-    """m grid values of a scan variable (ascending, descending or shuffled)."""
-    if var == 'T':
+def _grid(rnd, var, m, form='list'):
+    """m grid values of a scan variable (ascending, descending or shuffled) in the given
+    container / element type; integer forms draw integer temperatures / pressures."""
+    if var not in ('T', 'P'):
+        form = 'list'
+    if form in ('arange', 'range'):
+        if var == 'T':
+            start, step = rnd.randint(250, 600), rnd.randint(5, 40)
+        else:
+            start, step = rnd.randint(1, 5), rnd.randint(1, 4)
+        vals = [start + step * i for i in range(m)]
+        if rnd.random() < 0.25:
+            vals.reverse()
+        return _typed_grid(vals, form)
+    if form in INT_FORMS:
+        pool = range(250, 1501) if var == 'T' else range(1, 121)
+        vals = rnd.sample(pool, m)
+    elif var == 'T':
         vals = [rnd.uniform(250.0, 1500.0) for _ in range(m)]
     else:
         vals = [10.0 ** rnd.uniform(-6.0, 2.0) for _ in range(m)]
@@ -488,7 +549,7 @@ def _grid(rnd, var, m):
     elif mode < 0.7:
         vals.sort(reverse=True)
     if var in ('T', 'P'):
-        return vals
+        return _typed_grid(vals, form)
     return [{'P': v} for v in vals]
 
 
@@ -541,16 +602,14 @@ def _exec_rpd(case):
              'G2_kwargs': {'P': 10.0 ** rnd.uniform(-5.0, 1.0)}}
     events = []
     v1 = case['x1']
-    g1 = _grid(rnd, v1, case['m1'])
+    g1 = _grid(rnd, v1, case['m1'], case.get('f1', 'list'))
     if case['dim'] == 1:
         kw = {k: v for k, v in fixed.items() if k != v1 and (k in ('T', 'P') or rnd.random() < 0.4)}
-        if rnd.random() < 0.3:
-            g1 = np.array(g1) if v1 in ('T', 'P') else g1
         ev, _ = record_scan1(pd, norms, v1, g1, units, kw)
         events.append(ev)
     else:
         v2 = case['x2']
-        g2 = _grid(rnd, v2, case['m2'])
+        g2 = _grid(rnd, v2, case['m2'], case.get('f2', 'list'))
         kw = {k: v for k, v in fixed.items()
               if k not in (v1, v2) and (k in ('T', 'P') or rnd.random() < 0.4)}
         ev, _ = record_scan2(pd, norms, v1, g1, v2, g2, units, kw)
@@ -669,14 +728,15 @@ def _tlc_cases(ctx, rnd):
         cases.append({'kind': 'one', 't': c['t'], 'acc': c['acc'],
                       'norms': [rnd.choice(EXACT_NORMS) for _ in range(n)],
                       'units': rnd.choice([None, None, 'kJ/mol', 'eV']),
-                      'xs_array': rnd.random() < 0.3})
+                      'xs_form': rnd.choice(GRID_FORMS), 'p_form': rnd.choice(GRID_FORMS)})
     for c in two:
         n = len(c['a'])
         cases.append({'kind': 'two', 'a': c['a'], 'c': c['c'], 'nb': c['nb'], 'order': c['order'],
                       't': c['t'], 'acc': c['acc'],
                       'norms': [rnd.choice(EXACT_NORMS) for _ in range(n)],
                       'units': rnd.choice([None, None, 'kJ/mol', 'eV']),
-                      'pvar': rnd.choice(['P', 'G_kwargs'])})
+                      'pvar': rnd.choice(['P', 'G_kwargs']),
+                      't_form': rnd.choice(GRID_FORMS), 'p_form': rnd.choice(GRID_FORMS)})
     for c in seq:
         cases.append({'kind': 'seq', 'steps': c['steps'], 'states': c['states'], 'spans': c['spans'],
                       'form': rnd.choice(['co', 'by']), 'zero_extra': rnd.random() < 0.3,
@@ -709,7 +769,8 @@ def _random_cases(ctx, rnd):
                       'species': rnd.choice(['statmech', 'nasa']),
                       'n': rnd.randint(1, 8), 'm1': m1, 'm2': m2, 'x1': x1, 'x2': x2,
                       'norm_mode': rnd.choice(['none', 'coverage', 'positive', 'signed', 'signed']),
-                      'units': rnd.choice(UNITS), 'slices': 2})
+                      'units': rnd.choice(UNITS), 'slices': 2,
+                      'f1': rnd.choice(GRID_FORMS), 'f2': rnd.choice(GRID_FORMS)})
     for i in range(ctx.pick(400, 8000)):
         steps = rnd.randint(1, 8)
         cases.append({'kind': 'rspan', 'seed': rnd.randrange(1 << 30),
@@ -797,7 +858,9 @@ def run(ctx):
     cov = {'scan1': 0, 'scan2': 0, 'span_reactions': 0, 'span_network': 0, 'with_units': 0,
            'slices_compared': 0, 'scans_with_phase_change': 0, 'scans_shape_discriminating': 0,
            'span_highest_before_lowest': 0, 'span_highest_after_lowest': 0,
-           'span_noncontiguous': 0, 'span_noncontiguous_later_reactant_extreme': 0}
+           'span_noncontiguous': 0, 'span_noncontiguous_later_reactant_extreme': 0,
+           'scan2_integer_typed_first_grid': 0, 'scan2_integer_typed_second_grid': 0,
+           'scan1_integer_typed_grid': 0}
 
     def flat(x):
         return [z for y in x for z in flat(y)] if isinstance(x, list) else [x]
@@ -824,6 +887,11 @@ def run(ctx):
                     cov['span_highest_after_lowest'] += 1
             else:
                 cov[e['ev']] += 1
+                if e['ev'] == 'scan2':
+                    cov['scan2_integer_typed_first_grid'] += 1 if e.get('g1int') else 0
+                    cov['scan2_integer_typed_second_grid'] += 1 if e.get('g2int') else 0
+                else:
+                    cov['scan1_integer_typed_grid'] += 1 if e.get('g1int') else 0
                 cov['with_units'] += 1 if e['units'] else 0
                 cov['slices_compared'] += 1 if e.get('k', 0) > 0 else 0
                 cov['scans_with_phase_change'] += 1 if len(set(flat(e['st']))) > 1 else 0
